@@ -472,7 +472,7 @@ func (e Element) IsVoidElement() bool {
 }
 
 // indentChildren reports whether the children are written on their own, indented lines: when they were not all
-// on the start tag's line in the source, or when one of them will be written with a start tag that spans lines.
+// on the start tag's line in the source, or when one of them will be written on several lines.
 func (e Element) indentChildren() bool {
 	return e.IndentChildren || startTagsSpanLines(e.Children)
 }
@@ -481,6 +481,12 @@ func startTagsSpanLines(nodes []Node) bool {
 	for _, n := range nodes {
 		if el, isElement := n.(Element); isElement {
 			if el.IndentAttrs || hasConditionalAttribute(el.Attributes) || startTagsSpanLines(el.Children) {
+				return true
+			}
+		}
+		// Go code that gofmt splits into lines is written on several lines.
+		if gc, isGoCode := n.(GoCode); isGoCode {
+			if _, multiline := gc.format(); multiline {
 				return true
 			}
 		}
@@ -1306,7 +1312,8 @@ func (gc GoCode) Trailing() TrailingSpace {
 }
 
 func (gc GoCode) IsNode() bool { return true }
-func (gc GoCode) Write(w io.Writer, indent int) error {
+// format returns the code as gofmt writes it, and whether it is written on several lines.
+func (gc GoCode) format() (source []byte, multiline bool) {
 	if isWhitespace(gc.Expression.Value) {
 		gc.Expression.Value = ""
 	}
@@ -1315,7 +1322,12 @@ func (gc GoCode) Write(w io.Writer, indent int) error {
 		source = []byte(gc.Expression.Value)
 	}
 	// gofmt may split the code into several lines (e.g. `a := 1; b := 2`), it is multiline code from then on.
-	if !gc.Multiline && !bytes.Contains(source, []byte("\n")) {
+	return source, gc.Multiline || bytes.Contains(source, []byte("\n"))
+}
+
+func (gc GoCode) Write(w io.Writer, indent int) error {
+	source, multiline := gc.format()
+	if !multiline {
 		return writeIndent(w, indent, `{{ `, string(source), ` }}`)
 	}
 	if err := writeIndent(w, indent, "{{"+string(source)+"\n"); err != nil {
